@@ -17,8 +17,9 @@ import (
 
 func init() {
 	register(&Prop{ID: "C06", Run: runC06, Replay: map[string]func(*mc.Ctx, json.RawMessage){
-		"key": replayer(c06EvalKey),
-		"raw": replayer(c06EvalRaw),
+		"key":   replayer(c06EvalKey),
+		"raw":   replayer(c06EvalRaw),
+		"twins": replayer(c06EvalTwins),
 	}})
 }
 
@@ -118,7 +119,9 @@ func c06EvalRaw(w *mc.W, cas c06Raw) {
 	if err != nil {
 		w.Outcome("rejected: " + cas.Why)
 		if valid {
-			c.Violate("rejects-valid-wif/"+cas.Why, "raw", cas, err.Error())
+			// "A string is accepted ONLY IF ...": a refusal of a well-formed payload is allowed (the strings
+			// NewWIF produces are demanded back by the key family).  Counted, not reported.
+			w.Outcome("rejected although well-formed (allowed): " + cas.Why)
 		}
 		return
 	}
@@ -147,7 +150,85 @@ func c06EvalRaw(w *mc.W, cas c06Raw) {
 	}
 }
 
+// twins: two different valid WIF strings whose checksums are equal, decoded alternately in one process
+type c06Twins struct {
+	A string `json:"wif_a"`
+	B string `json:"wif_b"`
+}
+
+func c06EvalTwins(w *mc.W, cas c06Twins) {
+	c := w.Ctx()
+	for round, s := range []string{cas.A, cas.B, cas.A, cas.B} {
+		w.Eval()
+		_, key, comp, valid := ref.WIFValid(s)
+		if !valid {
+			panic("harness: twin is not a valid WIF")
+		}
+		var d *bchutil.WIF
+		var err error
+		if msg, p := mc.Guard(func() { d, err = bchutil.DecodeWIF(s) }); p {
+			c.Violate("decodewif-panics", "twins", cas, msg)
+			return
+		}
+		if err != nil {
+			continue // a refusal is allowed
+		}
+		got := d.PrivKey.D.Bytes()
+		if len(got) > 32 || !bytes.Equal(append(make([]byte, 32-len(got)), got...), key) || d.CompressPubKey != comp {
+			c.Violate("decoded-wif-is-another-string's-key", "twins", cas, fmt.Sprintf("decode %d (%s) returned key %x", round, s, got))
+			return
+		}
+		if re := d.String(); re != s {
+			c.Violate("accepted-wif-does-not-reencode-to-itself/checksum twins", "twins", cas, fmt.Sprintf("%s -> %s", s, re))
+			return
+		}
+		pt := ref.SecBaseMulFast(new(big.Int).SetBytes(key))
+		want := pt.Uncompressed()
+		if comp {
+			want = pt.Compressed()
+		}
+		if !bytes.Equal(d.SerializePubKey(), want) {
+			c.Violate("decoded-public-key-serialisation-wrong", "twins", cas, fmt.Sprintf("decode %d", round))
+			return
+		}
+	}
+	w.Outcome("checksum twins decoded alternately: each its own key")
+}
+
 func runC06(c *mc.Ctx) {
+	// first, sequentially: pairs of different valid strings with EQUAL checksums (birthday search), decoded
+	// alternately - what a decoder keeps from one call must not answer for another string
+	for _, v := range []struct {
+		id   byte
+		comp bool
+	}{{0x80, true}, {0x80, false}, {0xef, true}} {
+		a, b, ok := checksumTwins(func(i uint32) []byte {
+			p := make([]byte, 0, 34)
+			p = append(p, v.id, 0x01, 0x42)
+			p = append(p, byte(i>>24), byte(i>>16), byte(i>>8), byte(i))
+			p = append(p, bytes.Repeat([]byte{0x5c}, 26)...)
+			if v.comp {
+				p = append(p, 0x01)
+			}
+			return p
+		}, 1<<20)
+		if !ok {
+			c.NotExhaustive("no checksum twins found within 2^20 candidates")
+			continue
+		}
+		enc := func(p []byte) string {
+			ck := ref.DoubleSHA256(p)
+			return ref.B58Encode(append(append([]byte{}, p...), ck[:4]...))
+		}
+		w := c.Worker()
+		w.State()
+		cas := c06Twins{A: enc(a), B: enc(b)}
+		c06EvalTwins(w, cas)
+		w.Done()
+		c.Sample("twins", cas)
+	}
+	c.Space("pairs of valid WIF strings with equal checksums, decoded alternately", 3)
+
 	c.Rule("scalars {1,2,n-1,n-2,2^255, one with k leading zero bytes for k=1..31, walking bits} x {compressed,uncompressed} x 6 nets round-tripped and compared with the reference WIF encoder and secp256k1 serialisation; decoded payloads of every length 0..45 with a correct checksum, every compression-marker byte, every single-bit flip with and without recomputed checksum: acceptance must equal the statement's rule and accepted strings re-encode to themselves; non-trivial = accepted raw strings and leading-zero scalars")
 	c.Assume("reference secp256k1 / Base58 / double-SHA256 models are correct")
 
